@@ -116,8 +116,15 @@ func (m *haltMonitor) Classify(info *pbt.CaseInfo) {
 
 func haltProfile() *Profile {
 	w := AllOpsWeights()
+	w[OpReqAttest] = 5
 	return &Profile{Name: "halt", Weights: w, MinBlocks: 8, MaxBlocks: 30, MaxOps: 5, AbsentPM: 150, BadVarPM: 300, Setup: true, ThoroughScale: 3,
-		GapW: []int{3, 4, 10, 25, 4, 3, 3, 3, 4, 3, 3, 1, 2, 1, 6}}
+		GapW: []int{3, 4, 10, 25, 4, 3, 3, 3, 4, 3, 3, 1, 2, 1, 6},
+		Shape: func(t *rapid.T, op *Op) {
+			// a quarter of the well-formed attestation requests ask for the same report twice at one height
+			if op.K == OpReqAttest && op.V == 0 && uni(t, "requestTwice", 4) == 0 {
+				op.S = "twice"
+			}
+		}}
 }
 
 // runProp is the common shape of all history properties.
